@@ -237,6 +237,52 @@ pub fn c05(cx: &mut Ctx) {
         cx.op(&format!("resp {}", hx(&full)));
         cx.op("canproceed");
     }
+    // a complete head in front of a large read buffer (64 KiB + 1, 128 KiB, 300 KiB of what follows), and a head
+    // that is itself large (128 fields of 1000 bytes): only the head is consumed, whatever the buffer holds
+    for (i, tl) in [65537usize, 102401, 131072, 300000, 0].iter().enumerate() {
+        let mut r = cx.case("bigbuf");
+        let mut h = gen_head(&mut r, if *tl == 0 { 0 } else { 2 }, false);
+        h.status = [200u16, 404, 200, 201, 200][i];
+        if *tl == 0 {
+            h.fields = (0..128).map(|k| Field { name: format!("x-{}", k).into_bytes(), pre: b" ".to_vec(), value: vec![b'a' + (k % 26) as u8; 1000], post: vec![] }).collect();
+        }
+        let enc = h.enc();
+        cx.meta(&h.meta());
+        if !fresh_recv(cx) { continue; }
+        if *tl == 0 {
+            for p in [enc.len() - 1, 102400, 102401, 110000] {
+                let res = cx.op(&format!("resp {}", hx(&enc[..p.min(enc.len() - 1)])));
+                if res != "resp 0 none" && !fresh_recv(cx) { break; }
+            }
+        }
+        let mut full = enc.clone();
+        full.extend((0..*tl).map(|k| b"HTTP/1.1 200 OK\r\n\r\nxyz"[k % 22]));
+        cx.op(&format!("resp {}", hx(&full)));
+        cx.op("canproceed");
+    }
+    // a request without a body that carried Expect: 100-continue all the same: interim heads other than 100 are
+    // handed on as for any other request in RecvResponse (what happens to a 100 there is C11's)
+    for i in 0..(if cx.thorough { 40 } else { 10 }) {
+        let mut r = cx.case("getexp");
+        let mut h = gen_head(&mut r, i % 3, false);
+        h.status = [101u16, 102, 103, 199, 200, 204, 404][i % 7];
+        let enc = h.enc();
+        cx.meta(&h.meta());
+        let start = |cx: &mut Ctx| -> bool {
+            cx.rec.new_flow(&format!("GET HTTP/1.1 http://a.test/p 1 expect {}", hx(b"100-continue")));
+            cx.op("proceed"); cx.op("write 4096"); cx.op("proceed");
+            cx.rec.state() == "recvResponse"
+        };
+        if !start(cx) { continue; }
+        for p in prefix_lengths(&mut r, enc.len()) {
+            let res = cx.op(&format!("resp {}", hx(&enc[..p])));
+            if res != "resp 0 none" && !start(cx) { break; }
+        }
+        let mut full = enc.clone();
+        if i % 2 == 0 { full.extend_from_slice(tail); }
+        cx.op(&format!("resp {}", hx(&full)));
+        cx.op("canproceed");
+    }
     // every 3xx head cut at every position after its Location line (known finding D10 lives here)
     for i in 0..(if cx.thorough { 120 } else { 24 }) {
         let mut r = cx.case("redir");
@@ -253,6 +299,37 @@ pub fn c05(cx: &mut Ctx) {
             if res != "resp 0 none" && !fresh_recv(cx) { break; }
         }
         cx.op(&format!("resp {}", hx(&enc)));
+    }
+    // the size ladder over every length of a response head: reason phrase, field value, field name, what follows
+    let qmax = super::ladder_q(cx.thorough).last().copied().unwrap_or(0);
+    for l in super::ladder(cx.thorough, 131072) {
+        for dim in 0..4 {
+            let mut r = cx.case("ladder");
+            let fill: Vec<u8> = (0..l).map(|i| b'a' + (i % 26) as u8).collect();
+            let mut h = gen_head(&mut r, 1, false);
+            h.status = if l % 2 == 0 { 200 } else { 404 };
+            let mut tail_len = 0usize;
+            if (dim == 1 || dim == 2) && l > qmax { continue; }
+            match dim {
+                0 => { h.reason = Some(fill.clone()); }
+                1 => { h.fields.push(Field { name: b"x-l".to_vec(), pre: b" ".to_vec(), value: fill.clone(), post: vec![] }); h.fields.push(Field { name: b"x-z".to_vec(), pre: vec![], value: b"1".to_vec(), post: vec![] }); }
+                2 => { if l == 0 || l > 32768 { continue; } h.fields.insert(0, Field { name: fill.clone(), pre: b" ".to_vec(), value: b"v".to_vec(), post: vec![] }); }
+                _ => { tail_len = l; }
+            }
+            let enc = h.enc();
+            cx.meta(&h.meta());
+            if !fresh_recv(cx) { continue; }
+            if dim != 3 {
+                for p in [enc.len() / 2, enc.len() - 3, enc.len() - 1] {
+                    let res = cx.op(&format!("resp {}", hx(&enc[..p.min(enc.len() - 1)])));
+                    if res != "resp 0 none" && !fresh_recv(cx) { break; }
+                }
+            }
+            let mut full = enc.clone();
+            full.extend((0..tail_len).map(|k| tail[k % tail.len()]));
+            cx.op(&format!("resp {}", hx(&full)));
+            cx.op("canproceed");
+        }
     }
 }
 
@@ -318,6 +395,26 @@ pub fn c06(cx: &mut Ctx) {
                 cx.op("canproceed");
                 cx.op("proceed");
                 if cx.rec.state() == "recvBody" { cx.op("mode"); }
+            }
+        }
+    }
+    // long coding lists: the deciding token sits beyond byte 64 / 128 / 300 of the value
+    {
+        let nine = "gzip, deflate, compress, x-gzip, x-compress, identity, br, zstd, chunked".to_string();
+        let padded = format!("gzip,{}chunked", " ".repeat(57));
+        let tabbed = format!("gzip,{}Chunked", "\t ".repeat(70));
+        let many = format!("{}chunked", "identity, ".repeat(40));
+        let nochunk = format!("{}gzip", "identity, ".repeat(40));
+        let first = format!("chunked, {}", "gzip, ".repeat(30)) + "gzip";
+        for te in [&nine, &padded, &tabbed, &many, &nochunk, &first] {
+            for (status, ver, extra) in [(200u16, 1u8, ""), (404, 1, "Content-Length: 5\r\n"), (200, 0, ""), (302, 1, "Location: /n\r\n")] {
+                cx.case("longte");
+                if !to_recv_response_any(cx, "GET") { continue; }
+                let head = format!("HTTP/1.{} {} X\r\n{}Transfer-Encoding: {}\r\n\r\n", ver, status, extra, te).into_bytes();
+                cx.op(&format!("resp {}", hx(&head)));
+                cx.op("canproceed");
+                cx.op("proceed");
+                if cx.rec.state() == "recvBody" { cx.op("mode"); cx.op(&format!("bread {} 16", hx(b"3\r\nabc\r\n0\r\n\r\n"))); cx.op("canproceed"); }
             }
         }
     }
@@ -394,6 +491,26 @@ pub fn c06(cx: &mut Ctx) {
                     if cx.rec.state() == "recvBody" { cx.op("mode"); }
                 }
             }
+        }
+    }
+    // the size ladder: optional whitespace and further codings in front of the deciding token, a Content-Length
+    // with leading zeros, other fields in front of the framing field
+    for l in super::ladder_q(cx.thorough) {
+        let pad = " ".repeat(l);
+        let codings = "identity, ".repeat(l / 10);
+        let zeros = "0".repeat(l);
+        let filler: String = (0..l.min(120)).map(|k| format!("X-F{}: v\r\n", k)).collect();
+        let heads = [format!("Transfer-Encoding: gzip,{}chunked\r\n", pad), format!("Transfer-Encoding: {}chunked\r\n", codings), format!("Transfer-Encoding:{}chunked{}\r\n", pad, pad),
+                     format!("Content-Length: {}5\r\n", zeros), format!("Content-Length:{}5{}\r\n", pad, pad), format!("{}Transfer-Encoding: chunked\r\n", filler), format!("X-Pad: {}\r\nContent-Length: 5\r\n", pad)];
+        for (hi, fh) in heads.iter().enumerate() {
+            cx.case("ladder");
+            let _ = hi;
+            if !to_recv_response_any(cx, "GET") { continue; }
+            let head = format!("HTTP/1.1 200 X\r\n{}\r\n", fh).into_bytes();
+            cx.op(&format!("resp {}", hx(&head)));
+            cx.op("canproceed");
+            cx.op("proceed");
+            if cx.rec.state() == "recvBody" { cx.op("mode"); }
         }
     }
 }
@@ -501,6 +618,44 @@ pub fn c11(cx: &mut Ctx) {
                 }
                 cx.op("proceed");
                 finish_exchange(cx, &stream, 0, 5);
+            }
+        }
+    }
+    // (2b) the same with bare-LF line ends, and status lines far longer than any buffer a caller is likely to use
+    // (a 9000-byte reason phrase), looked at through prefixes shorter and longer than 8 KiB
+    {
+        let long100 = format!("HTTP/1.1 100 {}\r\n\r\n", "c".repeat(9000));
+        let long403 = format!("HTTP/1.1 403 {}\r\nContent-Length: 0\r\n\r\n", "n".repeat(9000));
+        let longfield = format!("HTTP/1.1 100 Continue\r\nX-Pad: {}\r\n\r\n", "p".repeat(9000));
+        let items: Vec<(String, Vec<usize>)> = vec![
+            ("HTTP/1.1 100 Continue\n\n".to_string(), vec![5, 22, 23, 24]),
+            ("HTTP/1.1 403 Forbidden\n\n".to_string(), vec![5, 23, 24]),
+            ("HTTP/1.1 417 No\nContent-Length: 0\n\n".to_string(), vec![16, 30, 34, 35]),
+            (long100.clone(), vec![100, 8192, 8193, 9000, long100.len() - 2, long100.len()]),
+            (long403.clone(), vec![8192, 8193, 9012, long403.len() - 2, long403.len()]),
+            (longfield.clone(), vec![8193, 9000, longfield.len() - 1, longfield.len()]),
+        ];
+        for (ans, looks) in &items {
+            for &p in looks {
+                for then in 0..3 {
+                    cx.case("lfbig");
+                    cx.meta(&format!("final look {}", p));
+                    let mut stream = ans.as_bytes().to_vec();
+                    let is100 = ans.starts_with("HTTP/1.1 100");
+                    if is100 { stream.extend_from_slice(finals[2].as_bytes()); }
+                    if !to_await100(cx, "POST", "HTTP/1.1", Some(5)) { continue; }
+                    let res = cx.op(&format!("read100 {}", hx(&stream[..p.min(stream.len())])));
+                    let mut soff = 0;
+                    if let Some(n) = res.strip_prefix("count ") { soff = n.parse().unwrap_or(0); }
+                    cx.op("keep100");
+                    if then >= 1 && soff == 0 && cx.op("keep100") == "bool true" {
+                        let res = cx.op(&format!("read100 {}", hx(&stream[..if then == 1 { ans.len() } else { stream.len() }])));
+                        if let Some(n) = res.strip_prefix("count ") { soff = n.parse().unwrap_or(0); }
+                        cx.op("keep100");
+                    }
+                    cx.op("proceed");
+                    finish_exchange(cx, &stream, soff, 5);
+                }
             }
         }
     }
@@ -629,6 +784,32 @@ pub fn c11(cx: &mut Ctx) {
             finish_exchange(cx, &stream, 0, 5);
         }
     }
+    // the size ladder over the reason phrase and a field value of what the server sends while the client awaits
+    // 100: looked at halfway, two bytes short, complete
+    let qmax = super::ladder_q(cx.thorough).last().copied().unwrap_or(0);
+    for l in super::ladder(cx.thorough, 65536) {
+        let fill = "r".repeat(l);
+        for (ai, ans) in [format!("HTTP/1.1 100 {}\r\n\r\n", fill), format!("HTTP/1.1 403 {}\r\n\r\n", fill), format!("HTTP/1.1 417 No\r\nX-Why: {}\r\nContent-Length: 0\r\n\r\n", fill), format!("HTTP/1.1 100 Continue\r\nX-Pad: {}\r\n\r\n", fill)].iter().enumerate() {
+            if ai >= 2 && l > qmax { continue; }
+            for look in [ans.len() / 2, ans.len() - 2, ans.len()] {
+                cx.case("ladder");
+                cx.meta(&format!("final look {}", look));
+                let mut stream = ans.as_bytes().to_vec();
+                if ai == 0 || ai == 3 { stream.extend_from_slice(finals[2].as_bytes()); }
+                if !to_await100(cx, "POST", "HTTP/1.1", Some(5)) { continue; }
+                let res = cx.op(&format!("read100 {}", hx(&stream[..look])));
+                let mut soff = 0;
+                if let Some(n) = res.strip_prefix("count ") { soff = n.parse().unwrap_or(0); }
+                if soff == 0 && cx.op("keep100") == "bool true" {
+                    let res = cx.op(&format!("read100 {}", hx(&stream[..ans.len()])));
+                    if let Some(n) = res.strip_prefix("count ") { soff = n.parse().unwrap_or(0); }
+                    cx.op("keep100");
+                }
+                cx.op("proceed");
+                finish_exchange(cx, &stream, soff, 5);
+            }
+        }
+    }
 }
 
 const REQ_METHODS: [&str; 8] = ["GET", "POST", "HEAD", "OPTIONS", "DELETE", "M-SEARCH", "X", "PROPFIND"];
@@ -742,5 +923,40 @@ pub fn c20(cx: &mut Ctx) {
             cx.op(&format!("parse-partial 4 {}", hx(&s)));
             cx.op(&format!("parse-req 4 {}", hx(&s)));
         } } }
+    }
+    // the size ladder over the lengths inside a head: reason, field value, field name (responses), target, field
+    // value (requests); the limit stays 128
+    for l in super::ladder_q(cx.thorough) {
+        let fill: Vec<u8> = (0..l).map(|i| b'a' + (i % 26) as u8).collect();
+        for dim in 0..3 {
+            if dim == 2 && l > 32768 { continue; }
+            cx.case("ladder");
+            let mut h = Head { version: 1, status: 200, reason: Some(b"OK".to_vec()), fields: vec![Field { name: b"a".to_vec(), pre: b" ".to_vec(), value: b"1".to_vec(), post: vec![] }] };
+            match dim {
+                0 => { h.reason = Some(fill.clone()); }
+                1 => { h.fields.push(Field { name: b"x-l".to_vec(), pre: b" ".to_vec(), value: fill.clone(), post: vec![] }); }
+                _ => { if l == 0 { continue; } h.fields.insert(0, Field { name: fill.clone(), pre: vec![], value: b"v".to_vec(), post: vec![] }); }
+            }
+            let enc = h.enc();
+            cx.meta(&h.meta());
+            cx.meta("limit 128");
+            for p in [enc.len() / 2, enc.len() - 2, enc.len()] {
+                cx.op(&format!("parse-resp 128 {}", hx(&enc[..p])));
+                cx.op(&format!("parse-partial 128 {}", hx(&enc[..p])));
+            }
+            if dim == 0 { continue; }
+            let fields = h.fields.clone();
+            let mut target = b"/".to_vec();
+            if dim == 1 { target.extend_from_slice(&fill); }
+            let mut renc = b"GET ".to_vec();
+            renc.extend_from_slice(&target);
+            renc.extend_from_slice(b" HTTP/1.1\r\n");
+            renc.extend_from_slice(&enc_fields(&fields));
+            renc.extend_from_slice(b"\r\n");
+            cx.meta(&format!("reqhead {} {} 1 {}{}", hx(b"GET"), hx(&target), fields.len(), meta_fields(&fields)));
+            for p in [renc.len() / 2, renc.len() - 2, renc.len()] {
+                cx.op(&format!("parse-req 128 {}", hx(&renc[..p])));
+            }
+        }
     }
 }
